@@ -12,7 +12,7 @@ PYTHONPATH=$WT/src /venv/bin/python $SRC/demo.py >/dev/null 2>&1; R1=$?
 git checkout -q -- .
 echo "demo without patch rc=$R0 (want 0), with patch rc=$R1 (want !=0)"
 cd /repo && git apply $SRC/patch.diff || { echo "does not apply to /repo"; exit 2; }
-cd /verif && ./check $PROP > /verif/.work/seed-$ID.out 2>&1; RC=$?
+cd /verif && ./check $PROP --no-evidence > /verif/.work/seed-$ID.out 2>&1; RC=$?
 git -C /repo checkout -- .
 grep -E "^VIOLATION|^KNOWN|^CHECKER|^UNDECIDED" /verif/.work/seed-$ID.out | cut -c1-260 | head -8
 tail -1 /verif/.work/seed-$ID.out | cut -c1-200
